@@ -94,6 +94,22 @@ pub fn roundtrip<F: Family>(p: &F::Packet, ctx: &mut Ctx) -> CaseResult {
         Err(e) => viol!("poll decode of the encoding failed: {:?}; packet {} bytes {}", e, fam::render(p), hex_short(bytes, 64)),
     }
 
+    // the same through a transport that delivers the encoding in two pieces with a Pending in between,
+    // fills the ReadBuf by initialize+advance, and with the decoder resumed from a clone of its state
+    if bytes.len() >= hl + 2 && bytes.len() <= 4_000_000 {
+        // the header goes through one byte per read; the body stops after `cut` bytes
+        let cut = 1 + (fnv(bytes) as usize) % (bytes.len() - hl - 1);
+        let mut steps = vec![crate::sio::Step::Chunk(1); hl];
+        steps.push(crate::sio::Step::Chunk(cut));
+        steps.push(crate::sio::Step::Pending);
+        let run = fam::dec_poll_styled::<F>(bytes, &steps, u64::MAX, None, false, 3);
+        match run.result {
+            Ok(ok) => {
+                ensure!(ok.pkt == *p && ok.total == bytes.len() && ok.body == bytes[hl..], "poll decode in two pieces (body cut after {} bytes, resumed from a cloned state) returned {} / total {}; original {}", cut, fam::render(&ok.pkt), ok.total, fam::render(p));
+            }
+            Err(e) => viol!("poll decode in two pieces (body cut after {} of {} bytes, Pending in between, resumed from a cloned state) failed: {:?}; packet {}", cut, bytes.len() - hl, e, fam::render(p)),
+        }
+    }
     classify::<F>(p, bytes, ctx);
     if bytes.len() > 4 {
         ctx.nontrivial(fnv(bytes));
